@@ -10,6 +10,9 @@ from operator import attrgetter
 from pathlib import PosixPath
 from typing import Any, Dict, List, Union
 
+# Third party imports
+import numpy as np
+
 # Midgard imports
 from midgard.dev import log, plugins
 from midgard.data.position import Position
@@ -614,10 +617,12 @@ class TimeseriesBlocks:
             Reference coordinate position as Position object
         """
         idx = self.dset.filter(station=self.station)
-        if self.dset.obs.dsite_pos.ref_pos[idx].shape[0] == 1: # only one reference station coordinate entry are given
-            ref_pos = Position(self.dset.obs.dsite_pos.ref_pos[idx][0], system="trs")
+        ref_pos = self.dset.obs.dsite_pos.ref_pos[idx]
+        if ref_pos.shape[0] == 1: # only one reference station coordinate entry are given
+            # Index the plain array: a one-row position array does not return its row for index 0
+            ref_pos = Position(np.asarray(ref_pos)[0], system="trs")
         else: 
-            ref_pos = self.dset.obs.dsite_pos.ref_pos[idx][0]
+            ref_pos = ref_pos[0]
 
         return ref_pos
 
